@@ -49,3 +49,18 @@ claimed["C03"] = (
  "Decides on every path: sort.Stable on the whole batch dominates every partition and write; a single update fails iff t <= now-maxRetention or now < t, before any write; extractPoints is a backward scan that on a stale point at i returns (points[i+1:], points[:i+1]) and otherwise (points, empty), testing time <= now-retention; archives are written with result #0 of the partition of the previous remainder with the loop index as id; findBestArchive gets the point's own time. Necessary structural conditions of C03.",
  "Not decided: findBestArchive's choice arithmetic, last-wins inside alignPoints, behaviour for unsorted input inside archiveUpdateMany.",
  "DESIGN.md 5 (C03)")
+claimed["C18"] = (
+ "static constant and derives-from checks on SSA (rendering calls, line arguments, loop ranges), guard-dominates for flags",
+ "Decides on every path: values are rendered with FormatFloat(v,'f',-1,64) and times as UTC in the fixed layout; a line carries (archive, time, value) of every point of every archive; view prints exactly the header and PointsList of what the read returned; Points() maps slot i to (from+i*step, values[i]); view-raw reads all N physical slots from the archive offset, filters every archive with the caller's unchanged window, sorts stably only under the flag and prints the filtered list. Necessary structural conditions of C18.",
+ "Not decided: boundary operators of the view-raw time filter, inclusion relations between view and view-raw output for every content.",
+ "DESIGN.md 5 (C18)")
+claimed["C19"] = (
+ "static set agreement by abstract evaluation over all 256 unit bytes, constant-table evaluation from the syntax tree, canonicalised failing conditions, callee/constant identity for layouts and separators",
+ "Decides: printed (letter, multiplier) pairs equal the parser's table and are printed under exact divisibility, larger units first; one UTC layout for all timestamp printing/parsing and ParseTimestamp rejects only syntax; printed separators are the runes parsers split on; ParseArchiveInfo rejects exactly non-positive and non-multiple retentions; generated method-name tables are mutually consistent; digit accumulation and unit multiplication are overflow-guarded per iteration / before multiplying, exactly one unit character is required. Necessary structural conditions of C19.",
+ "Not decided: exactness of the overflow bounds' constants for every numeral (value clause), the exhaustive round-trip laws over 2^31 durations / 2^32 timestamps.",
+ "DESIGN.md 5 (C19)")
+claimed["C20"] = (
+ "static constant, derives-from and guard-dominates checks on SSA; must-pass-through Sync",
+ "Decides on every path: exclusive creation by default and no overriding option; Create gets the command's layout, method and xFilesFactor; the fill and its write happen only under Fill, from randomPointsList(layout, rnd, max, now, now) at one clock reading with one list per archive; values are Intn(max+1) or the finer-sum helper and the plain random value is used only for slots strictly before the first slot holding finer data; times are offsets from the truncated until; every success path passes a checked Sync. Necessary structural conditions of C20.",
+ "Not decided: the numeric bound max*step/step0 and sum-consistency of every coarser slot (value clauses of the random construction).",
+ "DESIGN.md 5 (C20)")
